@@ -1,15 +1,27 @@
 import GLua.Engines.Common
 import GLua.Model.ApiStack
 import GLua.Spec.StackSpec
+import GLua.Model.ApiObj
 
 /-!
   C10 driver engine.  One activation (host function or top level) at a time:
     frame <base> <top> <cap> <growBy> <maxSize> <slot…>      snapshot of the real registry on entry (rest = Go nil)
     push v | pop n | settop i | insert v i | remove i | replace i v | nop        => ok <list 1..top> | err | ?
-    get i => v        gettop => n        sweep => Get(-(top+2)) … Get(top+2)
+    get i => v | gopanic      (Get at ANY index: stack, pseudo, out of the int range — `lget`)
+    gettop => n        sweep => Get(-(top+2)) … Get(top+2)
     call nargs nret ; junk… ; produced…  => ok <list>        (callR with a callee leaving `produced`)
     pcallfail nargs [path] ; junk…       => ok <list>        (PCall's deferred function; path = none | returned | failed | either:
                                                               no handler / the handler returned / the handler itself failed)
+    centry nargs fn|meta => <list the callee saw on entry>    (pushCallFrame + initCallFrame of a host callee; state unchanged)
+    callg nargs nret fn|meta n ; op ; op … => ok <list>       (callR composed: a host callee — called directly or through
+                                                              __call — performing the stack operations and returning n)
+    hcall tostring|len|concat n <fn> <arg…> ; op ; op … => <result> ok <list>
+                                                             (ToStringMeta / ObjLen / Concat on an object whose handler is a host
+                                                              function performing the ops and returning n: `callHandler`)
+    concat0 => s<hex> | gopanic                              (Concat() with no operand: reads the register below the top)
+    concatres <value of the Lua expression> => s<hex>        (Concat's string vs. the value of `a .. b` on the same operands)
+    pcallfailat nargs fn|meta path ; <pushed…> / nargs fn|meta ; … ; <last…> ; <hjunk…> => ok <list>
+                                                             (a protected call failing inside nested host activations: `pcallFailAt`)
     ret gfnret wantret => <values the caller received>       (callGFunction)
     resync <cap> <slot…>                                     dead slots above top after callee code ran
     snap => <top> <cap> <slot…>                              whole registry (Model) / caller prefix (Spec)
@@ -48,7 +60,69 @@ def splitSemi (ws : List String) : List (List String) :=
     | [] => [[w]]
     | a :: r => (w :: a) :: r) [[]]
 
+def parseStackOp : List String → Option StackOp
+  | ["push", v] => (parseVal v).map .push
+  | ["pop", n] => n.toNat?.map .pop
+  | ["settop", i] => (parseInt i).map .setTop
+  | ["insert", v, i] => do let v ← parseVal v; let i ← parseInt i; pure (.insert v i)
+  | ["remove", i] => (parseInt i).map .remove
+  | ["replace", i, v] => do let i ← parseInt i; let v ← parseVal v; pure (.replace i v)
+  | _ => none
+
+def parseCallee (s : String) : Option Callee :=
+  if s = "fn" then some .fn else if s = "meta" then some .viaCall else if s = "none" then some .none else none
+
+def hexDigit (n : Nat) : Char := if n < 10 then Char.ofNat (48 + n) else Char.ofNat (87 + n)
+
+/-- hex payload (the wire form of a string) of an ASCII text. -/
+def hexOfAscii (t : String) : String :=
+  String.ofList (t.toList.flatMap fun c => [hexDigit (c.toNat / 16), hexDigit (c.toNat % 16)])
+
+/-- wire values as values of the dispatch model: strings keep their hex payload, integral numbers are `Int`s, every
+    reference object is "some table" (only its not being a string or number matters here). -/
+def toV : OVal → Meta.V Int
+  | none => .nil
+  | some (.int i) => .num i
+  | some (.flt _) => .nil
+  | some (.str hx) => .str hx
+  | some (.bool b) => .bool b
+  | some (.ref n) => .table n
+
+/-- primitives of the engine instance: only `numStr` (Go's formatting of an integral LNumber, as a hex payload) is used. -/
+def engPrims : Meta.Prims Int where
+  arith := fun _ a _ => a
+  neg := fun a => a
+  numEq := fun a b => a == b
+  numLt := fun a b => decide (a < b)
+  numLe := fun a b => decide (a ≤ b)
+  strLt := fun a b => decide (a < b)
+  strLe := fun a b => decide (a ≤ b)
+  toNum := fun _ => none
+  numStr := fun i => hexOfAscii (toString i)
+  strLen := fun s => s.length / 2
+  tostr := fun _ => ""
+
+def engHeap : Meta.Heap Int where
+  raw := fun _ _ => .nil
+  field := fun _ _ => .nil
+  tmeta := fun _ => none
+  umeta := fun _ => none
+  tymeta := fun _ => none
+  border := fun _ => 0
+
+/-- `LVAsString` of a wire value, as a wire token. -/
+def asStringTok (v : OVal) : String := "s" ++ MetaModel.lvAsString engPrims (toV v)
+
 def bad : Verdict := { model := some "bad-op" }
+
+/-- the positive indices whose register number `base + idx - 1` leaves the range of a Go int (finding C10-index-int-overflow). -/
+def overflowIdx (m : ApiStack.St) (i : Int) : Bool := decide (i > 0 ∧ (m.base : Int) + i - 1 > maxInt)
+
+def showGet (r : Except Err Slot) : String :=
+  match r with
+  | .ok s => s.show
+  | .error (.goPanic _) => "gopanic"
+  | .error e => e.show
 
 /-- verdict for a mutator: compare the implementation's list after the op with Model and Spec. -/
 def mutVerdict (impl : List String) (mres : Except Err ApiStack.St) (sres : Option (Option StackSpec.Stk))
@@ -160,7 +234,18 @@ def handle (st : St) (ws : List String) : St × Verdict :=
       | none => (st, bad)
     | ["replace", i, v] =>
       match parseInt i, parseVal v with
-      | some i, some v => mutVerdict impl (replace st.m i v) (some (some (StackSpec.replace st.spec i v))) st
+      | some i, some v =>
+        let mres := (lreplace { st := st.m, p := st.p } i v false).map (·.st)
+        if impl = ["gopanic"] then
+          -- a Go runtime panic inside Replace, recovered by the harness: nothing was stored
+          let mv : Option String := match mres with
+            | .error (.goPanic _) => none
+            | .error e => some e.show
+            | .ok _ => some "ok"
+          (st, { model := mv,
+                 spec := some ((if mv.isNone ∧ overflowIdx st.m i then "KF:C10-index-int-overflow " else "") ++
+                   "Replace(" ++ toString i ++ ") outside the list must have no effect: Go runtime panic") })
+        else mutVerdict impl mres (some (some (StackSpec.replace st.spec i v))) st
       | _, _ => (st, bad)
     | "resync" :: c :: slots =>
       match c.toNat?, slots.mapM parseSlot with
@@ -183,8 +268,8 @@ def handle (st : St) (ws : List String) : St × Verdict :=
     | ["pget", i] =>
       match parseInt i with
       | some i =>
-        let mres := match getPseudo st.p i with
-          | .ok v => OVal.show v
+        let mres := match lget { st := st.m, p := st.p } i with
+          | .ok v => v.show
           | .error e => e.show
         -- Spec: the cell the manual names; at top level the manual gives no meaning to upvalue indices
         let sv : Option String := match StackSpec.pseudoOf i with
@@ -199,16 +284,15 @@ def handle (st : St) (ws : List String) : St × Verdict :=
       match parseInt i, parseVal v with
       | some i, some v =>
         let isTable := tb = "T"
-        let mp := replacePseudo st.p i v isTable
+        let ml := lreplace { st := st.m, p := st.p } i v isTable
+        let mp : Except Err PSt := ml.map (·.p)
         -- Spec: the store goes to the named cell (error for a non-table registry / environment / globals, and for the
         -- environment when no function is running); the list is never touched
         let sp : Option StackSpec.Cells := match StackSpec.pseudoOf i with
           | some .environ => if st.p.frame.isNone then none else StackSpec.pseudoSet st.cells .environ v isTable
           | some which => StackSpec.pseudoSet st.cells which v isTable
           | none => none
-        let mres : Except Err ApiStack.St := match mp with
-          | .ok _ => .ok st.m
-          | .error e => .error e
+        let mres : Except Err ApiStack.St := ml.map (·.st)
         let (st', vd) := mutVerdict impl mres (sp.map fun _ => some st.spec) st
         let st' := match mp with
           | .ok p' => { st' with p := p' }
@@ -221,11 +305,10 @@ def handle (st : St) (ws : List String) : St × Verdict :=
     | ["get", i] =>
       match parseInt i with
       | some i =>
-        let mres := match get st.m i with
-          | .ok s => s.show
-          | .error e => e.show
-        let sres := (StackSpec.get st.spec i).show
-        (st, { model := cmpModel mres impl, spec := if impl = [sres] then none else some ("spec get " ++ sres) })
+        let mres := showGet (lget { st := st.m, p := st.p } i)
+        let sres := (StackSpec.getAny st.spec st.cells i).show
+        let kf := if impl = ["gopanic"] ∧ mres = "gopanic" ∧ overflowIdx st.m i then "KF:C10-index-int-overflow " else ""
+        (st, { model := cmpModel mres impl, spec := if impl = [sres] then none else some (kf ++ "spec get " ++ sres) })
       | none => (st, bad)
     | ["gettop"] =>
       (st, { model := cmpModel (toString (getTop st.m)) impl,
@@ -233,9 +316,7 @@ def handle (st : St) (ws : List String) : St × Verdict :=
     | ["sweep"] =>
       let n : Int := StackSpec.getTop st.spec + 2
       let idxs : List Int := (List.range (2 * n.toNat + 1)).map (fun (k : Nat) => (k : Int) - n)
-      let mres := " ".intercalate (idxs.map fun i => match get st.m i with
-          | .ok s => s.show
-          | .error e => e.show)
+      let mres := " ".intercalate (idxs.map fun i => showGet (lget { st := st.m, p := st.p } i))
       let sres := " ".intercalate (idxs.map fun i => (StackSpec.get st.spec i).show)
       let got := " ".intercalate impl
       (st, { model := if got = mres then none else some mres,
@@ -248,6 +329,120 @@ def handle (st : St) (ws : List String) : St × Verdict :=
           mutVerdict impl (callR st.m na nr junk prod) (some (some (StackSpec.call st.spec na nr prod))) st
         | _, _ => (st, bad)
       | _, _, _ => (st, bad)
+    | ["centry", na, kd] =>
+      match na.toNat?, parseCallee kd with
+      | some na, some kind =>
+        let base : Int := (st.m.reg.top : Int) - na - 1
+        let mres := match regGet st.m.reg base >>= fun lv => pushCallFrameG st.m na kind lv with
+          | .ok c => showSlots (absSlots c)
+          | .error e => e.show
+        let sres := showList (StackSpec.calleeArgs st.spec na (kind == .viaCall))
+        let got := " ".intercalate impl
+        (st, { model := if got = mres then none else some mres,
+               spec := if got = sres then none else some ("spec callee arguments: " ++ sres) })
+      | _, _ => (st, bad)
+    | "callg" :: na :: nr :: kd :: n :: rest =>
+      match na.toNat?, parseInt nr, parseCallee kd, n.toNat?, ((splitSemi rest).filter (· ≠ [])).mapM parseStackOp with
+      | some na, some nr, some kind, some n, some ops =>
+        -- Spec: the callee's final list from what it received; its n top-most values, adjusted, replace function + arguments
+        let sres : Option StackSpec.Stk :=
+          match StackSpec.specRun (StackSpec.calleeArgs st.spec na (kind == .viaCall)) ops with
+          | some l' => if n ≤ l'.length then some (StackSpec.call st.spec na nr (StackSpec.topMost l' n)) else none
+          | none => none
+        mutVerdict impl (callRHost st.m na nr kind (opsBody ops n)) (some sres) st
+      | _, _, _, _, _ => (st, bad)
+    | "hcall" :: which :: n :: fnTok :: rest =>
+      match n.toNat?, parseVal fnTok, splitSemi rest with
+      | some n, some fn, argToks :: opToks =>
+        match argToks.mapM parseVal, (opToks.filter (· ≠ [])).mapM parseStackOp with
+        | some args, some ops =>
+          match impl with
+          | res :: implList =>
+            let mres := callHandler st.m fn args .fn (opsBody ops n)
+            -- what the API entry makes of the popped value
+            let shape (x : OVal) : Option String :=
+              if which = "tostring" then some (OVal.show x)
+              else if which = "len" then (objLen (.handler x)).map toString
+              else match x with
+                | some (.flt _) => none          -- formatting of a non-integral number: Go's business (not compared)
+                | _ => some (asStringTok x)
+            let mx : Option String := match mres with
+              | .ok (_, .val x) => shape x
+              | .ok (_, .goNil) => some "G"
+              | .error _ => none
+            -- Spec: the handler receives exactly the arguments; the result is its first result (nil if none); list unchanged
+            let sx : Option String :=
+              match StackSpec.specRun args ops with
+              | some l' => if n ≤ l'.length then shape ((StackSpec.topMost l' n).headD none) else none
+              | none => none
+            let (st', vd) := mutVerdict implList (mres.map (·.1)) (some (some st.spec)) st
+            let mv := match vd.model, mx with
+              | some m, _ => some m
+              | none, some m => if m = res then none else some ("result " ++ m)
+              | none, none => none
+            let sv := match vd.spec, sx with
+              | some m, _ => some m
+              | none, some m => if m = res then none else some ("spec: handler's first result " ++ m)
+              | none, none => none
+            (st', { model := mv, spec := sv })
+          | [] => (st, bad)
+        | _, _ => (st, bad)
+      | _, _, _ => (st, bad)
+    | ["concat0"] =>
+      let below : Option (Meta.V Int) :=
+        if st.m.reg.top = 0 then none
+        else some (match st.m.reg.array.getD (st.m.reg.top - 1) .goNil with
+          | .goNil => .nil
+          | .val v => toV v)
+      let mres := match ApiObj.Concat engPrims engHeap (fun _ _ => .nil) [] below with
+        | .goPanic _ => "gopanic"
+        | .res _ (.ok t) => "s" ++ t
+        | .res _ (.error _) => "err"
+      let got := " ".intercalate impl
+      -- a non-integral number below the top: its formatting is Go's business, only "a non-empty string" is compared
+      let isFlt : Bool := decide (st.m.reg.top > 0) && (match st.m.reg.array.getD (st.m.reg.top - 1) .goNil with
+        | .val (some (.flt _)) => true
+        | _ => false)
+      let mv := if isFlt then (if got.startsWith "s" ∧ got ≠ "s" then none else some "s<number>")
+                else if got = mres then none else some mres
+      -- Spec: the concatenation of no strings is the empty string
+      (st, { model := mv,
+             spec := if got = "s" then none else
+               some ((if mv.isNone then "KF:C10-concat-no-operand " else "") ++ "Concat() = " ++ got ++ ", expected the empty string") })
+    | ["concatres", lres] =>
+      match parseVal lres with
+      | some lv =>
+        let mres := asStringTok lv
+        let got := " ".intercalate impl
+        let mv := if got = mres then none else some mres
+        let isStrNum := MetaModel.lvCanConvToString (toV lv)
+        (st, { model := mv,
+               spec := if isStrNum ∧ got = mres then none else
+                 some ((if mv.isNone ∧ !isStrNum then "KF:C10-concat-non-string " else "") ++
+                   "Concat = " ++ got ++ " but the Lua expression gives " ++ lres) })
+      | none => (st, bad)
+    | "pcallfailat" :: na :: kd :: pathTok :: rest =>
+      let path : Option RecoverPath := match pathTok with
+        | "none" => some .noHandler
+        | "returned" => some .handlerReturned
+        | "failed" => some .handlerFailed
+        | _ => none
+      let parseLevel (g : List String) : Option Level :=
+        match g.span (· ≠ "/") with
+        | (vals, ["/", n, k]) => do
+          let vs ← vals.mapM parseVal
+          let n ← n.toNat?
+          let k ← parseCallee k
+          pure { pushed := vs, nargs := n, kind := k }
+        | _ => none
+      match na.toNat?, parseCallee kd, path, (splitSemi rest).reverse with
+      | some na, some kind, some path, hj :: lastG :: lvGroups =>
+        match hj.mapM parseVal, lastG.mapM parseVal, (lvGroups.reverse.filter (· ≠ [])).mapM parseLevel with
+        | some hjunk, some last, some levels =>
+          mutVerdict impl (pcallFailAt st.m na kind levels last (some (.str "")) hjunk path)
+            (some (some (StackSpec.callFailed st.spec na))) st
+        | _, _, _ => (st, bad)
+      | _, _, _, _ => (st, bad)
     | "pcallfail" :: na :: rest =>
       -- optional token before `;`: the exit path of PCall's deferred function (none | returned | failed | either)
       match na.toNat?, splitSemi rest with
